@@ -393,6 +393,9 @@ class Gen:
 
     def mk_guarded(self):
         cond = self.cond_expr()
+        if self.r.random() < self.cfg.get("p_nonbool_cond", 0):
+            # a raw secret integer of any value as the condition: with the checks on, entering the region is refused
+            cond = self.operand("I", 0)
         st = {"s": "guarded", "cond": cond}
         if self.depth >= 1 and self.r.random() < 0.2:
             st["reuse_outer"] = True      # nested region entered through the enclosing region's decorator object
@@ -907,6 +910,9 @@ class CodeGen:
         "caught_error_then_end": ["try:", "    PrivVal(1).assert_eq(2)", "except AssertionError:", "    pass"],
         "os__exit": ["os._exit({arg})"],
         "exit_in_guard": ["guarded(PrivVal(1))(lambda: sys.exit({arg}))()"],
+        # worker / supervisor: the rest of the script runs in a forked child that ends normally; the parent only waits
+        # and leaves through os._exit with the child's status
+        "fork_worker": ["_pid = os.fork()", "if _pid:", "    os._exit(os.waitstatus_to_exitcode(os.waitpid(_pid, 0)[1]))"],
     }
 
     def st_caught_exit(self, s):
@@ -920,7 +926,7 @@ class CodeGen:
         self.emit("__term__(%r)" % s["mode"])
         for ln in self.TERMINATORS[s["mode"]]:
             self.emit(ln.format(arg=arg))
-        if s["mode"] in ("caught_exit_then_end", "caught_error_then_end"):
+        if s["mode"] in ("caught_exit_then_end", "caught_error_then_end", "fork_worker"):
             self.emit("__term__('after-caught')")
 
     # -- oblivious block API (C09) ---------------------------------------------------------
